@@ -2,9 +2,11 @@ package props
 
 import (
 	"fmt"
+	"go/token"
 	"regexp"
 	"sort"
 	"strings"
+	"verifsa/internal/paths"
 	"verifsa/internal/prover"
 
 	"golang.org/x/tools/go/ssa"
@@ -310,6 +312,8 @@ func emitRule(c *core.Ctx, name string, fn *ssa.Function, sl *ssa.Slice, raw boo
 				}
 				c.Decide(okShape && sized && emitted, "C06-COVER", name+"#emit", c.Prog.Pos(call.Pos()), "part = make(6+len(payload)); header copied at 0, payload copied unmodified at 6; part appended to the result",
 					fmt.Sprintf("the part buffer is not exactly the six header octets followed by the payload (two copies at 0 and 6, nothing else: %v; length 6+len(payload): %v (%s); handed to the result: %v)", okShape, sized, d.String(), emitted))
+				why := resultAccumulator(fn, ms, sl)
+				c.Decide(why == "", "C06-COVER", name+"#collect", c.Prog.Pos(call.Pos()), "result starts empty, gets exactly one part per non-empty slice, and is returned", why)
 				return
 			}
 		}
@@ -332,6 +336,149 @@ func emitRule(c *core.Ctx, name string, fn *ssa.Function, sl *ssa.Slice, raw boo
 	}
 	c.Decide(okHdr && emitted, "C06-COVER", name+"#emit", c.Prog.Pos(part.Pos()), "payload appended unmodified after the 6-octet header, part appended to the result",
 		fmt.Sprintf("the payload is not appended directly after the six header octets (%d header octets before it) or the part is not appended to the result (%v)", depth, emitted))
+	why := resultAccumulator(fn, part, sl)
+	c.Decide(why == "", "C06-COVER", name+"#collect", c.Prog.Pos(part.Pos()), "result starts empty, gets exactly one part per non-empty slice, and is returned", why)
+}
+
+// resultAccumulator checks how the parts are collected: the part value is appended (as the only element) to an
+// accumulator that starts empty, on every loop iteration except those on which the payload slice is provably empty,
+// and the accumulator is what the function returns on success.
+func resultAccumulator(fn *ssa.Function, part ssa.Value, payload *ssa.Slice) string {
+	var app *ssa.Call
+	if part.Referrers() != nil {
+		for _, r := range *part.Referrers() {
+			st, ok := r.(*ssa.Store)
+			if !ok || st.Val != part {
+				continue
+			}
+			ia, ok := st.Addr.(*ssa.IndexAddr)
+			if !ok {
+				continue
+			}
+			al, ok := ia.X.(*ssa.Alloc)
+			if !ok || al.Referrers() == nil {
+				continue
+			}
+			for _, rr := range *al.Referrers() {
+				if sl, ok := rr.(*ssa.Slice); ok && sl.Referrers() != nil {
+					for _, u := range *sl.Referrers() {
+						if call, ok := u.(*ssa.Call); ok {
+							if b, ok := call.Call.Value.(*ssa.Builtin); ok && b.Name() == "append" && call.Call.Args[1] == ssa.Value(sl) && singleVararg(sl) == part {
+								app = call
+							}
+						}
+					}
+				}
+			}
+		}
+	}
+	if app == nil {
+		return "the part is not appended to the result"
+	}
+	acc, ok := app.Call.Args[0].(*ssa.Phi)
+	if !ok {
+		return "the result the part is appended to is not carried by the loop"
+	}
+	pv := prover.New(fn)
+	h := acc.Block()
+	for i, pred := range h.Preds {
+		e := acc.Edges[i]
+		if !h.Dominates(pred) {
+			switch x := e.(type) {
+			case *ssa.MakeSlice:
+				if k, isK := constInt(x.Len); !isK || k != 0 {
+					return "the result does not start empty: a part precedes the first part of the message"
+				}
+			case *ssa.Const:
+				if !x.IsNil() {
+					return "the result does not start empty"
+				}
+			default:
+				return "the result does not start as an empty slice"
+			}
+			continue
+		}
+		// inside the loop: the edge carries the appended result, or the iteration had nothing to emit
+		var check func(e ssa.Value, pred, target *ssa.BasicBlock, depth int) string
+		check = func(e ssa.Value, pred, target *ssa.BasicBlock, depth int) string {
+			if e == ssa.Value(app) {
+				return ""
+			}
+			if inner, isPhi := e.(*ssa.Phi); isPhi && inner != acc && depth < 3 {
+				for j, ip := range inner.Block().Preds {
+					if w := check(inner.Edges[j], ip, inner.Block(), depth+1); w != "" {
+						return w
+					}
+				}
+				return ""
+			}
+			if e == ssa.Value(acc) {
+				// skipped iteration: the payload must be empty here (high - low <= 0)
+				lo := prover.Const(0)
+				if payload.Low != nil {
+					lo = pv.LinOf(payload.Low)
+				}
+				hi := pv.LenOf(payload.X)
+				if payload.High != nil {
+					hi = pv.LinOf(payload.High)
+				}
+				// ... directly by a test `low == high` / `low >= high` on the way, or by the prover
+				established := false
+				type edge struct{ d, x *ssa.BasicBlock }
+				var edges []edge
+				edges = append(edges, edge{pred, target}) // the edge itself (a branch straight to the loop's continuation)
+				for x := pred; x != nil && x.Idom() != nil; x = x.Idom() {
+					edges = append(edges, edge{x.Idom(), x})
+				}
+				for _, ed := range edges {
+					d, x := ed.d, ed.x
+					ifi, isIf := d.Instrs[len(d.Instrs)-1].(*ssa.If)
+					if !isIf || d.Succs[0] == d.Succs[1] {
+						continue
+					}
+					bo, isB := ifi.Cond.(*ssa.BinOp)
+					if !isB || payload.Low == nil || payload.High == nil {
+						continue
+					}
+					vt, vf := viaEdge(d, x)
+					if x == target && d == pred {
+						vt, vf = d.Succs[0] == x, d.Succs[1] == x
+					}
+					lowHigh := bo.X == payload.Low && bo.Y == payload.High
+					highLow := bo.X == payload.High && bo.Y == payload.Low
+					switch {
+					case (lowHigh || highLow) && bo.Op == token.EQL && vt,
+						(lowHigh || highLow) && bo.Op == token.NEQ && vf,
+						lowHigh && bo.Op == token.GEQ && vt, lowHigh && bo.Op == token.LSS && vf,
+						highLow && bo.Op == token.LEQ && vt, highLow && bo.Op == token.GTR && vf:
+						established = true
+					}
+				}
+				if established {
+					return ""
+				}
+				if ok, _ := pv.Prove(pred, lo.Add(hi, -1), nil); !ok {
+					return "an iteration can leave the result unchanged although its payload is not established to be empty: a part of the message is dropped"
+				}
+				return ""
+			}
+			return "the result is replaced by something other than result+part inside the loop"
+		}
+		if w := check(e, pred, h, 0); w != "" {
+			return w
+		}
+	}
+	// returned on success
+	for _, b := range fn.Blocks {
+		ret, ok := b.Instrs[len(b.Instrs)-1].(*ssa.Return)
+		if !ok || len(ret.Results) < 2 || !paths.IsNilConst(ret.Results[len(ret.Results)-1]) || !h.Dominates(b) {
+			continue // (a success return before the loop is the single-part case, judged by C06-SINGLE)
+		}
+		if ret.Results[0] != ssa.Value(acc) {
+			return "the function does not return the collected parts"
+		}
+	}
+	return ""
 }
 
 var _ = sort.Strings
